@@ -360,6 +360,13 @@ def c09(ck):
     ck.rule.append("random templates to depth 4 x random assignments x random splits into 1..4 fills; about one case in five carries an "
                    "out-of-domain value; non-trivial = template has a variable that sigma mentions; distinct by (template, sigma)")
     ck.model("MCFill", "MCFill", "MCFill.cfg", timeout=900)
+    # one-call fills of a repeat marker together with a list that is live elsewhere, in a process of their own
+    ck.rule.append("fillself (isolated worker): 3 templates x 3 kinds of live list (own variable, second parent, the template itself) x counts "
+                   "0..2, with and without a key for the brought variable: returns, equals the two-step fill, changes nothing that existed")
+    ck.trace("fillself", "fillself", ["-n", q(ck, 150, 1500)], "TraceItems", "TraceItems.cfg", ["InvC09s"], worker=True,
+             nontrivial=lambda e: e.get("ev") == "fillself", key=lambda e: json.dumps([e.get("how"), e.get("n"), e.get("withkey"), e.get("case", 0) % 9]))
+    if ck.violations:
+        return
     ck.trace("fill", "fill", ["-n", q(ck, 1500, 12000)], "TraceItems", "TraceItems.cfg", ["InvC09"],
              nontrivial=lambda e: len(e.get("tmpl", {}).get("vars", [])) > 0,
              key=lambda e: json.dumps([e.get("tmpl", {}).get("abs"), e.get("sigma")], sort_keys=True))
